@@ -106,6 +106,8 @@ type VC struct {
 	curState  *State
 	ghostTok  bool
 
+	callPost   map[ssa.Instruction]*State
+	epochNext  map[int]string
 	roms       map[string]string // global loc const -> ROM array const (immutable global arrays)
 	romFacts   []string
 	pkg        *types.Package
@@ -146,7 +148,7 @@ func newVCMode(prog *Program, fn *ssa.Function, fc *FuncContract, mode, name str
 		exit: map[int]*State{}, structSeen: map[string]bool{}, heapSort: map[string]string{}, heapElem: map[string]types.Type{},
 		strLits: map[string]string{}, typeIDs: map[string]int{}, specUsed: map[string]bool{}, assumptions: map[string]bool{},
 		anchors: map[string]int{}, srcLines: map[string][]string{}, loopOf: map[int]*loopInfo{}, rangeIter: map[ssa.Value]*rangeState{},
-		roms: map[string]string{}, pkg: pkg, specInfos: map[string]*specInfo{}, lemmasUsed: map[string]bool{},
+		roms: map[string]string{}, epochNext: map[int]string{}, callPost: map[ssa.Instruction]*State{}, pkg: pkg, specInfos: map[string]*specInfo{}, lemmasUsed: map[string]bool{},
 	}
 }
 
@@ -472,8 +474,40 @@ func (vc *VC) heapGet(st *State, key string, elem types.Type) string {
 	}
 	sort := vc.heapKeySort(key, elem)
 	n := fmt.Sprintf("H_%s_e%d", mangle(key), st.epoch)
-	vc.declare(n, sort)
+	if !vc.declared[n] {
+		vc.declare(n, sort)
+		nid := vc.epochNext[st.epoch]
+		if nid == "" {
+			nid = "nextId0"
+		}
+		vc.closureFact(n, key, nid, 0)
+	}
 	return n
+}
+
+// closureFact: every pointer-like value stored in heap version h refers to
+// memory allocated before nextId (Go values never point to unallocated memory).
+func (vc *VC) closureFact(h, key, nextId string, seq int) {
+	elem := vc.heapElem[key]
+	if elem == nil {
+		return
+	}
+	if _, ghost := elem.(*GhostType); ghost {
+		return
+	}
+	switch elem.Underlying().(type) {
+	case *types.Pointer, *types.Map, *types.Chan, *types.Signature, *types.Slice, *types.Interface:
+	default:
+		return
+	}
+	tmp := &State{nextId: nextId}
+	inv := vc.typeInv(elem, sx("select", h, "l!c"), tmp)
+	term := fmt.Sprintf("(forall ((l!c Loc)) (! %s :pattern ((select %s l!c))))", inv, h)
+	if seq == 0 {
+		vc.facts = append(vc.facts, Fact{Seq: 0, Term: term, Kind: "assume"})
+	} else {
+		vc.addFact("assume", term)
+	}
 }
 
 func (vc *VC) heapSetTerm(st *State, key string, elem types.Type, term string) {
@@ -495,7 +529,8 @@ func (vc *VC) havocAll(st *State) {
 	st.heap = map[string]string{}
 	old := st.nextId
 	st.nextId = vc.freshConst("nextId", "Int")
-	vc.assume(vc.guard(), sx("<=", old, st.nextId))
+	vc.epochNext[st.epoch] = st.nextId
+	vc.addFact("assume", sx("<=", old, st.nextId))
 }
 
 func (vc *VC) havocKey(st *State, key string) {
@@ -505,7 +540,9 @@ func (vc *VC) havocKey(st *State, key string) {
 		delete(st.heap, key)
 		return
 	}
-	st.heap[key] = vc.freshConst("H_"+mangle(key), vc.heapSort[key])
+	h := vc.freshConst("H_"+mangle(key), vc.heapSort[key])
+	st.heap[key] = h
+	vc.closureFact(h, key, st.nextId, 1)
 }
 
 func fieldKey(structT types.Type, i int) string {
